@@ -107,3 +107,44 @@ class Bus:
                 self.progress.append(str(item))
             else:
                 raise TypeError(f"sequence yielded {item!r}")
+
+
+def run_interleaved(pairs, rng=None):
+    """Several sequences, each on its own bus, advanced in turns (what two drivers in one process do to two generator
+    instances of the same library function).  pairs: [(Bus, generator)]; rng picks who advances next (round-robin when
+    None).  Returns a list of ('ok', value) / ('exc', exception), one per pair."""
+    from dali.command import Command
+    n = len(pairs)
+    resp = [None] * n
+    out = [None] * n
+    live = list(range(n))
+    k = 0
+    while live:
+        i = live[k % len(live)] if rng is None else rng.choice(live)
+        k += 1
+        bus, seq = pairs[i]
+        try:
+            item = seq.send(resp[i])
+        except StopIteration as stop:
+            out[i] = ("ok", stop.value)
+            live.remove(i)
+            continue
+        except Exception as e:      # noqa - handed to the caller
+            out[i] = ("exc", e)
+            live.remove(i)
+            continue
+        resp[i] = None
+        if isinstance(item, Command):
+            try:
+                resp[i] = bus.send(item)
+            except Exception as e:  # noqa
+                out[i] = ("exc", e)
+                live.remove(i)
+        elif type(item).__name__ == "sleep":
+            bus.sleeps += 1
+        elif type(item).__name__ == "progress":
+            bus.progress.append(str(item))
+        else:
+            out[i] = ("exc", TypeError(f"sequence yielded {item!r}"))
+            live.remove(i)
+    return out
